@@ -176,7 +176,9 @@ func canBeNumber(q query) bool {
 func (b *builder) processFilter(root *filterNode, flags flag, props *builderProp) (query, error) {
 	first := (flags & flagsEnum.Filter) == 0
 
-	qyInput, err := b.processNode(root.Input, (flags | flagsEnum.Filter), props)
+	// The descendant-over-descendant rewrite yields only the top-most matches, which is not
+	// enough once they are filtered: a nested match may pass the predicate its ancestor fails.
+	qyInput, err := b.processNode(root.Input, (flags|flagsEnum.Filter)&^flagsEnum.SmartDesc, props)
 	if err != nil {
 		return nil, err
 	}
